@@ -146,7 +146,7 @@ theorem label_eq_of_edge (p : Prog) (l : List ℕ) (hok : labelsOK p l = true) (
     (hs : s ∈ (p[n]).inputs) : l.getD s 0 = l.getD n 0 := by
   unfold labelsOK at hok
   simp only [Bool.and_eq_true, List.all_eq_true, beq_iff_eq] at hok
-  exact hok.1 (s, n) (mem_keptEdges p n s hn hd hc hs)
+  exact hok.1.1 (s, n) (mem_keptEdges p n s hn hd hc hs)
 
 theorem ownMask_congr (p : Prog) (l : List ℕ) (α : ℕ → List Rat) (a b : ℕ)
     (h : l.getD a 0 = l.getD b 0) : ownMask p l α a = ownMask p l α b := by
@@ -182,6 +182,140 @@ theorem ownMask_input (p : Prog) (l : List ℕ) (α : ℕ → List Rat) (hok : l
     simp only
     unfold featMask
     rw [if_pos hfr, h2, hw]
+
+/-! ### features that reach an excluded layer or a network output are never pruned -/
+
+theorem reach_closed (p : Prog) (l : List ℕ) (hok : labelsOK p l = true) (u t : ℕ) (hu : u < p.length)
+    (ht : t ∈ (p[u]).inputs)
+    (h : (p[u]).excluded = true ∨ (p[u]).isOutput = true ∨
+      ((p[u]).defining = false ∧ (reachFixed p).getD u false = true)) :
+    (reachFixed p).getD t false = true := by
+  unfold labelsOK at hok
+  simp only [Bool.and_eq_true] at hok
+  have hc := hok.1.2
+  unfold closedReach at hc
+  simp only [List.all_eq_true] at hc
+  have hmem : (p[u], u) ∈ p.zipIdx := by
+    rw [List.mem_zipIdx_iff_getElem?]; simp [List.getElem?_eq_getElem hu]
+  have := hc (p[u], u) hmem t ht
+  simp only [Bool.or_eq_true, Bool.not_eq_true', Bool.or_eq_false_iff, Bool.and_eq_false_iff,
+    Bool.and_eq_true] at this
+  rcases this with h' | h'
+  · exfalso
+    rcases h with h | h | ⟨h1, h2⟩
+    · rw [h] at h'; exact absurd h'.1.1 (by simp)
+    · rw [h] at h'; exact absurd h'.1.2 (by simp)
+    · rcases h'.2 with h3 | h3
+      · rw [h1] at h3; simp at h3
+      · rw [h2] at h3; simp at h3
+  · exact h'
+
+theorem allTrue_replicate (n : ℕ) : allTrue (List.replicate n true) := by
+  unfold allTrue; simp
+
+theorem allTrue_nil : allTrue ([] : List Bool) := rfl
+
+theorem allTrue_iff (m : List Bool) : allTrue m ↔ ∀ b ∈ m, b = true := by
+  unfold allTrue
+  constructor
+  · intro h b hb; rw [h] at hb; exact (List.mem_replicate.mp hb).2
+  · intro h; exact List.eq_replicate_iff.mpr ⟨rfl, h⟩
+
+theorem allTrue_flatten (ms : List (List Bool)) (h : ∀ m ∈ ms, allTrue m) : allTrue ms.flatten := by
+  rw [allTrue_iff]
+  intro b hb
+  rw [List.mem_flatten] at hb
+  obtain ⟨m, hm, hbm⟩ := hb
+  exact (allTrue_iff m).mp (h m hm) b hbm
+
+theorem allTrue_expand (m : List Bool) (k : ℕ) (h : allTrue m) : allTrue (expand m k) := by
+  unfold expand
+  apply allTrue_flatten
+  intro x hx
+  rw [List.mem_map] at hx
+  obtain ⟨b, hb, rfl⟩ := hx
+  rw [(allTrue_iff m).mp h b hb]
+  exact allTrue_replicate k
+
+/-- the masker of a class one of whose members is tied to an input, an output, an excluded layer
+or reaches one is frozen: its mask is all ones (or there is no masker and no mask at all) -/
+theorem ownMask_allTrue (p : Prog) (l : List ℕ) (α : ℕ → List Rat) (n : ℕ) (hn : n < p.length)
+    (h : ((getOp p n).isInput || (getOp p n).isOutput || (getOp p n).excluded || feedsExcluded p n) = true) :
+    allTrue (ownMask p l α n) := by
+  unfold ownMask
+  cases hg : groupOf p l (l.getD n 0) with
+  | none => exact allTrue_nil
+  | some g =>
+    have hfr : g.frozen = true := by
+      unfold groupOf at hg
+      simp only at hg
+      split at hg
+      · cases hg
+      · cases hg
+        simp only [List.any_eq_true]
+        refine ⟨n, ?_, h⟩
+        unfold members; rw [List.mem_filter]; exact ⟨List.mem_range.mpr hn, by simp⟩
+    simp only
+    unfold featMask
+    rw [if_pos hfr]
+    exact allTrue_replicate _
+
+/-- **whatever reaches an excluded layer or a network output is alive in full** -/
+theorem reach_allTrue (p : Prog) (l : List ℕ) (α : ℕ → List Rat) (hok : labelsOK p l = true)
+    (hws : wellShaped p = true) :
+    ∀ n (hn : n < p.length), (reachFixed p).getD n false = true →
+      allTrue ((aliveMasks p l α).getD n []) := by
+  have hsb := srcsBefore_of_wellShaped p hws
+  intro n
+  induction n using Nat.strong_induction_on with
+  | _ n ih =>
+    intro hn hr
+    rw [alive_eq p l α hsb n hn]
+    have hown : allTrue (ownMask p l α n) :=
+      ownMask_allTrue p l α n hn (by unfold feedsExcluded; rw [hr]; simp)
+    -- a non-defining node hands the mark on to its operands
+    have down : ∀ s ∈ (p[n]).inputs, (p[n]).defining = false →
+        allTrue ((aliveMasks p l α).getD s []) := by
+      intro s hs hd
+      have hsn := hsb n hn s hs
+      exact ih s hsn (by omega) (reach_closed p l hok n s hn hs (Or.inr (Or.inr ⟨hd, hr⟩)))
+    cases hop : p[n] with
+    | input c => simp only [maskStep]; exact allTrue_replicate c
+    | conv s c a => simp only [maskStep]; exact hown
+    | dw s a => simp only [maskStep]; exact hown
+    | lin s c a => simp only [maskStep]; exact hown
+    | fixed s c a i => simp only [maskStep]; exact allTrue_replicate c
+    | fixedDw s a => simp only [maskStep]; exact down s (by rw [hop]; simp [Op.inputs]) (by rw [hop]; rfl)
+    | chan s => simp only [maskStep]; exact down s (by rw [hop]; simp [Op.inputs]) (by rw [hop]; rfl)
+    | add a b => simp only [maskStep]; exact down a (by rw [hop]; simp [Op.inputs]) (by rw [hop]; rfl)
+    | cat ss =>
+      simp only [maskStep]
+      apply allTrue_flatten
+      intro m hm
+      rw [List.mem_map] at hm
+      obtain ⟨s, hs, rfl⟩ := hm
+      exact down s (by rw [hop]; simpa [Op.inputs] using hs) (by rw [hop]; rfl)
+    | tcat ss =>
+      simp only [maskStep]
+      cases ss with
+      | nil => exact allTrue_nil
+      | cons s ss => exact down s (by rw [hop]; simp [Op.inputs]) (by rw [hop]; rfl)
+    | flat s m =>
+      simp only [maskStep]
+      exact allTrue_expand _ _ (down s (by rw [hop]; simp [Op.inputs]) (by rw [hop]; rfl))
+    | output s => simp only [maskStep]; exact down s (by rw [hop]; simp [Op.inputs]) (by rw [hop]; rfl)
+
+/-- the tensor feeding an excluded layer, and the tensor a network returns, are alive in full -/
+theorem fixed_input_allTrue (p : Prog) (l : List ℕ) (α : ℕ → List Rat) (hok : labelsOK p l = true)
+    (hws : wellShaped p = true) (n s : ℕ) (hn : n < p.length) (hs : s ∈ (p[n]).inputs)
+    (h : (p[n]).excluded = true ∨ (p[n]).isOutput = true) :
+    allTrue ((aliveMasks p l α).getD s []) := by
+  have hsb := srcsBefore_of_wellShaped p hws
+  have hsn := hsb n hn s hs
+  refine reach_allTrue p l α hok hws s (by omega) (reach_closed p l hok n s hn hs ?_)
+  rcases h with h | h
+  · exact Or.inl h
+  · exact Or.inr (Or.inl h)
 
 /-! ### the sharing invariant -/
 
